@@ -24,7 +24,7 @@ Proof.
   eapply (tp_parse_content text context _ (BI text 0 (s_pos s) c)); [ | | | exact H | exact W | ].
   - intros p p' d. apply BI_mono.
   - intros tok r d d' p. apply (token_budget_r text _ IHlvl). lia.
-  - intros tok d d' p. apply (token_budget_0 text _ IHlvl).
+  - intros tok d d' p Hr _. revert Hr. apply (token_budget_0 text _ IHlvl).
   - apply BI_refl. exact Hok.
 Qed.
 
@@ -52,8 +52,10 @@ Proof.
   - intros p p' d. apply BI_mono.
   - intros tok r d d' p Hr Ht. rewrite token_eq in Ht. revert Hr Ht.
     apply (token_budget_r text _ (nested_budget entity_levels)). lia.
-  - intros tok d d' p Hr Ht. rewrite token_eq in Ht. revert Hr Ht.
+  - intros tok d d' p Hr _ Ht. rewrite token_eq in Ht. revert Hr Ht.
     apply (token_budget_0 text _ (nested_budget entity_levels)).
+  - intros n v d d' p Ht. rewrite token_eq in Ht. revert Ht.
+    apply (token_budget_0 text _ (nested_budget entity_levels)). reflexivity.
   - apply BI_refl. exact Hok.
 Qed.
 
